@@ -165,12 +165,13 @@ def parse_ids(flat, name):
 
 
 def eval_cases(ck, name, cases):
-    """returns (mismatch ids, C01 violation ids, C02 violation ids, coqc output)"""
+    """returns (mismatch ids, C01 violation ids, C02 violation ids, coqc output); for C02 also the ids of the cases
+    that meet the freshness hypothesis (FRESH)"""
     txt = (HEADER + "Definition cases : list case := [\n  " + ";\n  ".join(case_to_coq(c) for c in cases) + "].\n"
            "Definition M := Eval vm_compute in mismatches cases.\nPrint M.\n"
            "Definition V1 := Eval vm_compute in c01_violations cases.\nPrint V1.\n"
            "Definition V2 := Eval vm_compute in c02_violations cases.\nPrint V2.\n"
-           "Definition FR := Eval vm_compute in fresh_cases cases.\nPrint FR.\n")
+           + ("Definition FR := Eval vm_compute in fresh_cases cases.\nPrint FR.\n" if ck.pid == "C02" else ""))
     rc, out = ck.coq_eval(name, txt)
     if rc != 0:
         return None, None, None, out
@@ -369,6 +370,11 @@ def coverage_level1(ck, res):
 
 # ---------------------------------------------------------------------------------------------- level 2 (HTTP handlers)
 L2KINDS = ["series", "samples", "tags", "spans", "profile"]
+# errTexts of harness/cmd/ingest/main.go (field "e" of a failing ret)
+ERR_TEXTS = ["scripted insert failure", "write tcp ...: write: connection reset by peer", "read tcp ...: read: connection reset by peer",
+             "write tcp ...: write: broken pipe", "EOF", "unexpected EOF", "read tcp ...: i/o timeout", "context deadline exceeded",
+             "dial tcp: lookup ...: i/o timeout", "code: 241, message: Memory limit (total) exceeded", "connection reset by peer",
+             "handshake: clickhouse: connection refused"]
 
 
 def compress(rids):
@@ -419,11 +425,27 @@ def case2_to_coq(c, wps=1):
             ops.append("O2Send %d" % o["s"])
         elif o["t"] == "ret":
             ops.append("O2Ret %d %s" % (o["s"], b(o.get("ok"))))
+    hnum = {}
+    for o in (c.get("ops") or []):
+        if o["t"] == "http":
+            hnum.setdefault(o.get("h", 0), len(hnum))
     obs = []
     for evs in (c.get("obs") or []):
         l = []
         for e in (evs or []):
             t = e["t"]
+            if t in ("sreq", "sres"):
+                # seen by the wrapper around the services: which sub-request, which attempt, how its promise ended
+                h, i = e.get("h", 0), e.get("i", 0)
+                if not e.get("n"):
+                    continue                            # a request without rows: not identifiable (the model side drops them too)
+                if h < 0 or i < 0 or h not in hnum:
+                    l.append("EDial 99 false")          # a Request the pushes of the script do not explain: never matches
+                elif t == "sreq":
+                    l.append("EReq 0 (PSub %d %d %d%%N) KSamples [] 0%%Z None" % (hnum[h], i, e.get("k", 0)))
+                else:
+                    l.append("EResolve (PSub %d %d %d%%N) KSamples [] %s" % (hnum[h], i, e.get("k", 0), b(e["ok"])))
+                continue
             if t == "dial":
                 l.append("EDial %d %s" % (e["s"], b(e["ok"])))
             elif t == "swap":
@@ -548,10 +570,24 @@ def nontrivial2(c):
 
 def coverage_level2(ck, res):
     cases = res["cases"]
-    att, routes, opk, status = {}, {}, {}, {}
+    att, routes, opk, status, classes, errs = {}, {}, {}, {}, {}, {}
+    spy = {"request_calls": 0, "promises_failed": 0, "promises_ok": 0}
     distinct = set()
     for c in cases:
         att[str(c.get("attempts"))] = att.get(str(c.get("attempts")), 0) + 1
+        cl = str(c.get("class", "?")).split()[0]
+        cl = cl if cl.startswith(("exhaust", "bigspans", "corpus")) else "random"
+        classes[cl] = classes.get(cl, 0) + 1
+        for o in c["ops"]:
+            if o["t"] == "ret" and not o.get("ok"):
+                t = ERR_TEXTS[o.get("e", 0)] if 0 <= o.get("e", 0) < len(ERR_TEXTS) else "?"
+                errs[t] = errs.get(t, 0) + 1
+        for l in (c.get("obs") or []):
+            for e in (l or []):
+                if e["t"] == "sreq":
+                    spy["request_calls"] += 1
+                elif e["t"] == "sres":
+                    spy["promises_ok" if e.get("ok") else "promises_failed"] += 1
         for r in c.get("reqs") or []:
             routes[r["route"]] = routes.get(r["route"], 0) + 1
         for o in c["ops"]:
@@ -566,9 +602,13 @@ def coverage_level2(ck, res):
     ck.coverage["distinct_nontrivial"] += len(distinct)
     ck.coverage["rule"] += ("HTTP scripts: the real PushStreamV2 (Loki JSON and snappy protobuf), PushV2 (Zipkin JSON), WriteStreamV2 (Prometheus remote write), OTLPPushV2 and PushProfileV2 (pprof, binary/octet-stream) handlers over five real services, RetryAttempts 0..3, "
                             "1..4 pushes (one in ten with a body the parser rejects), 6..19 operations (push, PlanFlush, let a worker call Do, return of Do with success 2/5) then a drain; "
+                            "a failing INSERT returns one of 12 real socket / ClickHouse error texts; two scripted classes by case number: exhaust (2 in 10: every INSERT fails until every push is answered, "
+                            "every second one with a connection-reset text) and bigspans (1 in 10: a Zipkin push above the parser's 1 MiB chunk threshold, 3-4 chunks, first INSERT fails); "
+                            "every Request call of doPush and the completion of its promise are observed through a wrapper around the services and compared with the model; "
                             "non-trivial = RetryAttempts >= 1, at least one failed INSERT and one answer; distinct by content. ")
     ck.extra.setdefault("input_distribution", {}).update({"http_retry_attempts": att, "http_routes": routes, "http_operation_kinds": opk,
-                                                           "http_status_codes": status})
+                                                           "http_status_codes": status, "http_script_classes": classes,
+                                                           "http_insert_error_texts": errs, "http_request_calls_seen_by_wrapper": spy})
     ck.add_samples([{"attempts": c.get("attempts"), "reqs": [{"route": r["route"], "items": r["items"]} for r in c["reqs"]][:2],
                      "ops": c["ops"][:8], "obs": (c.get("obs") or [])[:8]} for c in cases[:2]], limit=5)
 
